@@ -260,10 +260,10 @@ Proof.
   destruct (send_gate_cases2 m w) as [H|[[Hst H]|[H6 [Hk H]]]]; rewrite H in *; cbn [rv rw re app] in *.
   - apply outstep_id. exact Hi.
   - (* gate passed, nothing changed *)
-    unfold send_tail in *. rewrite bind_unfold in *.
-    set (G := match mkind m, treq w with KTestReq, None => raise XConn | _, _ => ret tt end w) in *.
+    rewrite send_tail_unfold in *. rewrite bind_unfold in *.
+    set (G := treq_gate m w w) in *.
     assert (HG : G = mkR (inr XConn) w [] \/ G = mkR (inl tt) w []).
-    { subst G. destruct (mkind m), (treq w); auto. }
+    { subst G. destruct (treq_gate_cases m w w) as [[H' _]|H']; auto. }
     destruct HG as [HG|HG]; rewrite HG in *; cbn [rv rw re app] in *; [apply outstep_id; exact Hi|].
     rewrite (send_write_new_nout c m w Hr) in Hhi.
     destruct Hi as [I1 [I2 I3]].
@@ -273,9 +273,9 @@ Proof.
     apply (sent_world_outstep c m w [] w); auto; repeat split; auto.
   - (* Logon / Logout from NETWORK_CONN_ESTABLISHED *)
     set (w6 := set_role ROLE_INITIATOR (set_st ST_LOGON_SENT w)) in *.
-    unfold send_tail in *. rewrite bind_unfold in *.
-    assert (HG : match mkind m, treq w with KTestReq, None => raise XConn | _, _ => ret tt end w6 = mkR (inl tt) w6 []).
-    { destruct Hk as [Hk|Hk]; rewrite Hk; reflexivity. }
+    rewrite send_tail_unfold in *. rewrite bind_unfold in *.
+    assert (HG : treq_gate m w w6 = mkR (inl tt) w6 []).
+    { apply treq_gate_pass. destruct Hk as [Hk|Hk]; rewrite Hk; discriminate. }
     rewrite HG in *. cbn [rv rw re app] in *.
     rewrite (send_write_new_nout c m w6 Hr) in Hhi.
     destruct Hi as [I1 [I2 I3]].
@@ -291,7 +291,8 @@ Lemma send_msg_mono c m : raw_seq m = false -> mono (send_msg c m).
 Proof.
   intros Hr. unfold send_msg. apply mono_bind; [apply mono_getw|]. intros w0.
   apply mono_bind; [apply mono_pres, send_gate_pres; ins_solve|]. intros _.
-  unfold send_tail. apply mono_bind; [destruct (mkind m), (treq w0); try apply mono_ret; apply mono_raise|]. intros _.
+  rewrite send_tail_unfold.
+  apply mono_bind; [intros w'; destruct (treq_gate_cases m w0 w') as [[H' _]|H']; rewrite H'; cbn; lia|]. intros _.
   intros w. rewrite (send_write_new_nout c m w Hr). lia.
 Qed.
 
@@ -624,8 +625,9 @@ Proof.
   intros Hs Hf w. unfold send_msg. rewrite bind_unfold. cbn [getw rv rw re]. rewrite bind_unfold.
   pose proof (send_gate_pres f m w Hf w) as Hg.
   destruct (rv (send_gate m w w)); cbn [rv rw re]; [|exact Hg].
-  unfold send_tail. rewrite bind_unfold.
-  destruct (mkind m), (treq w); msimp; rewrite ?(send_write_skip_world c m _ Hs); exact Hg.
+  rewrite send_tail_unfold, bind_unfold.
+  match goal with |- context [treq_gate m w ?x] => destruct (treq_gate_cases m w x) as [[H' _]|H']; rewrite H' end;
+    cbn [rv rw re]; rewrite ?(send_write_skip_world c m _ Hs); exact Hg.
 Qed.
 
 Lemma send_msg_skip_news c m w : skip_journal m = true -> news (re (send_msg c m w)) = [].
@@ -1150,16 +1152,17 @@ Proof.
       unfold send_msg. rewrite bind_unfold. cbn [getw rv rw re]. rewrite bind_unfold.
       assert (Hg : pres nout (send_gate m w)) by (apply send_gate_pres; ins_solve).
       destruct (rv (send_gate m w w)); cbn [rv rw re]; [|rewrite Hg; lia].
-      unfold send_tail. rewrite bind_unfold.
-      destruct (mkind m), (treq w); msimp; rewrite ?(send_write_new_nout c m _ Hr), ?Hg; lia. }
+      rewrite send_tail_unfold, bind_unfold.
+      match goal with |- context [treq_gate m w ?x] => destruct (treq_gate_cases m w x) as [[H' _]|H']; rewrite H' end;
+        cbn [rv rw re]; rewrite ?(send_write_new_nout c m _ Hr), ?Hg; lia. }
   destruct Hi as [I1 [I2 I3]].
   unfold send_msg in *. rewrite bind_unfold in *. cbn [getw rv rw re app] in *. rewrite bind_unfold in *.
   destruct (send_gate_cases2 m w) as [H|[[Hst H]|[H6 [Hk H]]]]; rewrite H in *; cbn [rv rw re app] in *.
   - left. reflexivity.
-  - unfold send_tail in *. rewrite bind_unfold in *.
-    set (G := match mkind m, treq w with KTestReq, None => raise XConn | _, _ => ret tt end w) in *.
+  - rewrite send_tail_unfold in *. rewrite bind_unfold in *.
+    set (G := treq_gate m w w) in *.
     assert (HG : G = mkR (inr XConn) w [] \/ G = mkR (inl tt) w []).
-    { subst G. destruct (mkind m), (treq w); auto. }
+    { subst G. destruct (treq_gate_cases m w w) as [[H' _]|H']; auto. }
     destruct HG as [HG|HG]; rewrite HG in *; cbn [rv rw re app] in *; [left; reflexivity|].
     assert (Hw : wr w = true) by (apply I3; unfold alive; stlia).
     pose proof (has_key_below _ _ I2) as Hk.
@@ -1169,9 +1172,9 @@ Proof.
     split; [reflexivity|]. split; [reflexivity|]. split; [cbn; apply lookup_app_new; exact Hk|].
     split; [reflexivity|]. apply Hstep.
   - set (w6 := set_role ROLE_INITIATOR (set_st ST_LOGON_SENT w)) in *.
-    unfold send_tail in *. rewrite bind_unfold in *.
-    assert (HG : match mkind m, treq w with KTestReq, None => raise XConn | _, _ => ret tt end w6 = mkR (inl tt) w6 []).
-    { destruct Hk as [Hk|Hk]; rewrite Hk; reflexivity. }
+    rewrite send_tail_unfold in *. rewrite bind_unfold in *.
+    assert (HG : treq_gate m w w6 = mkR (inl tt) w6 []).
+    { apply treq_gate_pass. destruct Hk as [Hk|Hk]; rewrite Hk; discriminate. }
     rewrite HG in *. cbn [rv rw re app] in *.
     assert (Hw : wr w = true) by (apply I3; unfold alive; stlia).
     pose proof (has_key_below _ _ I2) as Hkey.
@@ -1221,10 +1224,10 @@ Lemma send_tail_journal_first c m w0 w :
                            In (n, mkMsg (mtype m) (wire_tags c n m)) (j_out (jr (rw (send_tail c m w0 w)))))
   end.
 Proof.
-  unfold send_tail. rewrite bind_unfold.
-  set (G := match mkind m, treq w0 with KTestReq, None => raise XConn | _, _ => ret tt end w).
+  rewrite send_tail_unfold, bind_unfold.
+  set (G := treq_gate m w0 w).
   assert (HG : G = mkR (inr XConn) w [] \/ G = mkR (inl tt) w []).
-  { subst G. destruct (mkind m), (treq w0); auto. }
+  { subst G. destruct (treq_gate_cases m w0 w) as [[H' _]|H']; auto. }
   destruct HG as [HG|HG]; rewrite HG; cbn [rv rw re app]; [reflexivity|].
   pose proof (send_write_journal_first c m w) as H.
   destruct (rv (send_write c m w)); exact H.
@@ -1324,6 +1327,22 @@ Proof.
   split; [apply c05_classes_forallb; vm_compute; reflexivity|]. repeat split; vm_compute; reflexivity.
 Qed.
 
+(* PossResend(97)=Y (like PossDupFlag=N, or a GapFillFlag on a message that is not a SequenceReset) does not make a
+   message a retransmission: it is a NEW message - the codec allocates its number, so it must be journaled and counted
+   (skip_journal is exactly "PossDupFlag=Y or SequenceReset-GapFill") - and a ResendRequest replays it *)
+Definition m_possresend : msg := mkMsg (S "D") [(S "11", S "X"); (S "97", S "Y")].
+Lemma possresend_is_new :
+  raw_seq m_possresend = false /\ skip_journal m_possresend = false
+  /\ skip_journal (mkMsg (S "D") [(S "11", S "X"); (T43, S "N")]) = false
+  /\ skip_journal (mkMsg (S "D") [(S "11", S "X"); (T123, S "Y")]) = false
+  /\ (let l := run cfgS w_acceptor [i_logon 1; OSend m_possresend; i_resend 2 2 0] in
+      new_numbers (trace l) = [S "1"; S "2"]
+      /\ map fst (j_out (jr (final cfgS w_acceptor [i_logon 1; OSend m_possresend; i_resend 2 2 0]))) = [1; 2]
+      /\ j_sout (jr (final cfgS w_acceptor [i_logon 1; OSend m_possresend; i_resend 2 2 0])) = 2
+      /\ map (fun wm => (get T34 (mtags wm), get T43 (mtags wm), get (S "97") (mtags wm))) (wires (trace l))
+         = [(Some (S "1"), None, None); (Some (S "2"), None, Some (S "Y")); (Some (S "2"), Some (S "Y"), Some (S "Y"))]).
+Proof. cbn zeta. repeat split; vm_compute; reflexivity. Qed.
+
 (* non-vacuity: a session with sends, a served ResendRequest, a heartbeat exchange and a logout stays inside the invariant *)
 Definition h_c05_good :=
   [i_logon 1; o_app "A"; i_app 2; i_resend 3 1 0; OTestReq 7; OIn (inbound (S "0") 4 [(T112, S "7")]) 0; i_app 6;
@@ -1358,6 +1377,22 @@ Proof.
   unfold send_msg in Hx. rewrite bind_unfold in Hx. cbn [getw rv rw re app] in Hx. rewrite bind_unfold in Hx.
   rewrite (send_gate_open m w Hg) in Hx. cbn [rv rw re] in Hx.
   destruct (send_tail_conn c m w _ Hx) as [Hk' _]. congruence.
+Qed.
+
+(* the refusals with FIXConnectionError are exactly the state / role gates and the TestRequest gate *)
+Lemma send_msg_conn_iff c m w :
+  rv (send_msg c m w) = inr XConn <-> gate_refuses m w = true \/ treq_refuses m w = true.
+Proof.
+  split.
+  - intros Hx. destruct (gate_refuses m w) eqn:Hg; [left; reflexivity|]. right.
+    unfold send_msg in Hx. rewrite bind_unfold in Hx. cbn [getw rv rw re app] in Hx. rewrite bind_unfold in Hx.
+    pose proof (send_gate_open m w Hg) as Ho.
+    destruct (send_gate m w w) as [r wg eg]. cbn [rv rw re] in *. subst r. cbn [rv rw re] in Hx.
+    destruct (send_tail_conn c m w wg Hx) as [_ Ht].
+    rewrite send_tail_unfold, bind_unfold, treq_gate_spec in Ht.
+    destruct (treq_refuses m w); [reflexivity|]. exfalso. cbn [rv rw re app] in Ht.
+    apply (send_write_not_conn c m wg). destruct (rv (send_write c m wg)); inversion Ht. reflexivity.
+  - intros [H|H]; [rewrite (send_msg_refused c m w H)|rewrite (testrequest_gate c m w H)]; reflexivity.
 Qed.
 
 Definition rr_msg (w : world) : msg := mkMsg MT_RESENDREQUEST [(T7, z_to_dec (nin w)); (T16, S_0)].
